@@ -1,4 +1,6 @@
 fn main() {
+    // verification hooks: declare the cfg so that `#![deny(warnings)]` accepts it
+    println!("cargo::rustc-check-cfg=cfg(open_coroutine_verif)");
     cfg_if::cfg_if! {
         if #[cfg(target_os = "linux")] {
             cc::Build::new()
